@@ -257,6 +257,9 @@ class GcodeParser(CommonMixin):  # pylint: disable=too-many-instance-attributes
             self._rawChecksum = "*" + self._checksum
             self._checksum = int(self._checksum)
             self.text = self.text[:-len(self._rawChecksum)]
+        else:
+            # Don't retain the checksum text of a previously parsed line
+            self._rawChecksum = None
 
         self.trailingWhitespace = match.group(11)
 
